@@ -103,7 +103,7 @@ func (self *Decoder) CheckTrailings() error {
 	/* junk after JSON value */
 	return SyntaxError{
 		Src:  buf,
-		Pos:  pos,
+		Pos:  errors.ClampPos(pos, len(buf)),
 		Code: types.ERR_INVALID_CHAR,
 	}
 }
@@ -176,5 +176,8 @@ func Skip(data []byte) (start int, end int) {
 	m := types.NewStateMachine()
 	ret := native.SkipOne(&s, &p, m, uint64(0))
 	types.FreeStateMachine(m)
+	if ret < 0 {
+		p = errors.ClampPos(p, len(data))
+	}
 	return ret, p
 }
